@@ -2324,12 +2324,46 @@ def c01_entry(res, tier, seed):
     """quick: one process.  thorough: one process per (group, shape) context, four at a time."""
     if tier != "thorough" or os.environ.get("VERIF_C01_MATCH"):
         return c01(res, tier, seed)
-    import multiprocessing as mp, concurrent.futures as cf_
-    import mq as _mq
+    import pickle, resource
     E.load()   # MIR dump and parse once; the children inherit the parsed functions
     ctxs = [(g, sname) for sname in C01_SHAPES_THOROUGH for g in C01_GROUPS_THOROUGH]
-    with cf_.ProcessPoolExecutor(max_workers=4, mp_context=mp.get_context("fork")) as pool:
-        outs = list(pool.map(_c01_child, [(tier, seed, c_) for c_ in ctxs]))
+    # one fresh process per context (memory is returned when it ends), at most `par` at a time, each with an
+    # address-space cap so that a runaway context fails alone and is reported as undischarged
+    par = int(os.environ.get("VERIF_C01_PAR", "4"))
+    pending = list(ctxs)
+    running = {}
+    outs_by = {}
+    t_begin = time.time()
+    while pending or running:
+        while pending and len(running) < par:
+            c_ = pending.pop(0)
+            fn_ = os.path.join(E.TARGET, "c01_ctx_%s_%s_%d.pkl" % (c_[0], c_[1], os.getpid()))
+            pid = os.fork()
+            if pid == 0:
+                try:
+                    resource.setrlimit(resource.RLIMIT_AS, (14 << 30, 14 << 30))
+                    o_ = _c01_child((tier, seed, c_))
+                except MemoryError:
+                    o_ = dict(error="out of memory (14 GB address-space cap) in this context")
+                except BaseException as e_:
+                    o_ = dict(error="%s: %s" % (type(e_).__name__, e_))
+                try:
+                    pickle.dump(o_, open(fn_, "wb"))
+                finally:
+                    os._exit(0)
+            running[pid] = (c_, fn_, time.time())
+        pid, status = os.wait()
+        if pid in running:
+            c_, fn_, t0_ = running.pop(pid)
+            try:
+                outs_by[c_] = pickle.load(open(fn_, "rb"))
+                os.unlink(fn_)
+            except Exception:
+                outs_by[c_] = dict(error="context process ended without a result (wait status %d)" % status)
+            sys.stderr.write("[C01 thorough] %s x %s: %.0fs, %s (elapsed %.0fs, %d left)\n" % (c_[0], c_[1], time.time() - t0_, "error: " + outs_by[c_]["error"][:120] if outs_by[c_].get("error") else
+                             "%d obligations" % len(outs_by[c_]["obligations"]), time.time() - t_begin, len(pending) + len(running)))
+            sys.stderr.flush()
+    outs = [outs_by[c_] for c_ in ctxs]
     for c_, o in zip(ctxs, outs):
         if o.get("error"):
             res.ob("[%s x %s] context" % c_, "mirsym", "undischarged", o["error"][:300])
@@ -2756,6 +2790,13 @@ def c01(res, tier, seed, only_ctx=None):
         for n_, qq in enumerate(all_q):
             open(os.path.join(E.TARGET, "c01_dump_%d.smt2" % n_), "w").write("; %s\n" % qq.name + qq.script()[0])
     done = run_queries(all_q, deadline=deadline)
+    for qq in done:
+        if qq.status == "unsat":
+            # decided: the script, skeletons and raw assertions are not needed again
+            qq.poly_text = qq.poly_skels = None
+            qq.asserts = []
+            qq.rawq = None
+            qq.stage2 = None
     ctx_of = {id(qq): cx for qq, cx in ctxs}
     # queries nlsat could not decide are split over a grid of the cell/offset domain (36 boxes); every
     # box must be unsat for the obligation to count, a sat box is a counterexample candidate
@@ -2985,6 +3026,7 @@ def c01(res, tier, seed, only_ctx=None):
                         batch.append(rq)
                     info[gid].setdefault("pending", []).append((th0, w, dep, rq))
             run_queries(batch, deadline=deadline)
+            cache = {}   # texts of finished rounds are not needed again
             pins = []
             for gid in list(front):
                 inf = info[gid]
@@ -3026,7 +3068,7 @@ def c01(res, tier, seed, only_ctx=None):
                 gq.status, gq.raw = "unknown", "orientation branch and bound: %d of %d intervals not unsat at width %.4f (%s)" % (left, inf["queries"], inf["finest"], "budget" if front.get(gid) else "depth limit")
             gq.bb_done = True
         res.extra["orientation_bb_goals"] = len(goals)
-        res.extra["orientation_bb_queries"] = len(cache)
+        res.extra["orientation_bb_queries"] = sum(inf_["queries"] for inf_ in info.values())
         res.extra["orientation_bb_rounds"] = rounds
 
     if stage2:
@@ -3122,7 +3164,7 @@ def c01(res, tier, seed, only_ctx=None):
         res.ob("change of variables (a,q,cos,sin,offset) -> (A,Bx,By,u,v): %d atom translations proved equivalent" % (len(lq) - len(bad)), "z3/R", "discharged" if not bad else "undischarged",
                "unsat" if not bad else "not proven: " + "; ".join("%s:%s" % (x.name[:60], x.status) for x in bad[:5]), sum(x.secs for x in lq), dict(lemmas=len(lq), failed=len(bad)), False)
         res.extra["cov_lemmas"] = len(lq)
-        res.extra["cov_converted_queries"] = sum(1 for qq in done if getattr(qq, "poly_text", None) is not None)
+        res.extra["cov_converted_queries"] = sum(1 for qq in done if getattr(qq, "poly_conv", None) is not None)
     agg = {}
     for qq in done:
         cx = ctx_of.get(id(qq))
